@@ -1,7 +1,7 @@
 (* Run/EvalProps.v — per-property projections of the state-machine trace.
    Each property compares only the part of the trace it speaks about, so an
    observable but unrelated rewrite does not alarm properties it does not touch. *)
-Require Export Verif.Run.EvalSM Verif.Model.Monitors Verif.Proofs.Monitor.
+Require Export Verif.Run.EvalSM Verif.Model.Monitors Verif.Model.Monitors18 Verif.Proofs.Monitor.
 Open Scope N_scope.
 
 Definition is_metric (f : metric -> bool) (a : action) : bool := match a with AMetric m => f m | _ => false end.
@@ -68,7 +68,9 @@ Definition run_c10 := run_sm proj_c10 mon_c10.
 Definition mon_c12 (c : smcase) (t : list action) : bool := accepts step12 init12 t.
 Definition run_c12 := run_sm proj_c12 mon_c12.
 Definition run_c14 := run_sm proj_all mon_true.
-Definition run_c18 := run_sm proj_c18 mon_true.
+Definition mon_c18 (c : smcase) (t : list action) : bool :=
+  match c with KSm _ cfg _ _ apps e _ _ => accepts step18 (init18 cfg apps (e_store e)) t end.
+Definition run_c18 := run_sm proj_c18 mon_c18.
 
 (* C11: requests, replies and everything that decides the reply or depends on the request's options *)
 Definition proj_c11 (a : action) : bool :=
